@@ -278,6 +278,35 @@ int main(int argc, char **argv)
 		       bases, c12_mutants, c12_sig_lost, c12_must_reject, c12_lib_rejected, c12_violations, c12_not_ended);
 		for (i = 1; i <= 12; ++i) printf("%s%d:%lu", i > 1 ? "," : "", i, c12_rule[i]);
 		printf("\n");
+	} else if (!strcmp(argv[1], "c07burst") && argc >= 5) {
+		/* C07: every burst of span 1..16 bits (first and last bit flipped, any pattern between) starting at bit offsets [lo,hi)
+		 * of the 6 data bytes of a stored member; lha_reader_check must report failure for each.  Bits are numbered in the
+		 * order in which CRC-16/ARC consumes them (least significant bit of each byte first): that is the order in which
+		 * the burst guarantee of a reflected CRC holds. */
+		FILE *f = fopen(argv[2], "rb"); uint32_t hlen, alen; unsigned lo = atoi(argv[3]), hi = atoi(argv[4]), o, sp;
+		unsigned long bursts = 0, accepted = 0; uint8_t *a, *w;
+		if (!f || fread(&hlen, 4, 1, f) != 1 || fread(&alen, 4, 1, f) != 1) return 2;
+		a = malloc(alen); w = malloc(alen);
+		if (fread(a, 1, alen, f) != alen) return 2;
+		fclose(f);
+		for (o = lo; o < hi && o < 48; ++o) for (sp = 1; sp <= 16 && o + sp <= 48; ++sp) {
+			unsigned long inner, ninner = sp >= 2 ? (1UL << (sp - 2)) : 1;
+			for (inner = 0; inner < ninner; ++inner) {
+				unsigned long pat = sp == 1 ? 1 : (1UL | (inner << 1) | (1UL << (sp - 1))); unsigned b;
+				Mem m; LHAInputStream *st; LHAReader *r; LHAFileHeader *h; int res;
+				memcpy(w, a, alen);
+				for (b = 0; b < sp; ++b) if ((pat >> b) & 1) { unsigned bit = o + b; w[hlen + bit / 8] ^= (uint8_t) (1u << (bit % 8)); }
+				m.p = w; m.len = alen; m.pos = 0; cur_arc = w; cur_len = alen;
+				st = lha_input_stream_new(&memtype, &m); r = lha_reader_new(st);
+				h = lha_reader_next_file(r);
+				if (!h) { fprintf(stderr, "base archive not parsed\n"); return 2; }
+				res = lha_reader_check(r, NULL, NULL);
+				++bursts;
+				if (res) { char ex[64]; ++accepted; snprintf(ex, sizeof ex, "offset=%u span=%u pattern=%lx", o, sp, pat); witness("C07burst", w, alen, ex); }
+				lha_reader_free(r); lha_input_stream_free(st);
+			}
+		}
+		printf("SUMMARY mode=c07burst bursts=%lu accepted=%lu\n", bursts, accepted);
 	} else return 2;
 	return 0;
 }
